@@ -6,7 +6,7 @@
 
      pairing (PairSetup.tla, abstracted to its outcome)      Pair(k, c)      stores controller c on connection k
      verification (Access.tla)                                Verify(k, c)    succeeds iff c is stored
-     gating (Access.tla)                                      Read(k) / Write(k, v) / Sub(k) / Unsub(k) / RemovePairing(k, c)
+     gating (Access.tla)                                      Read(k) / Write(k, v) / Sub(k) / Unsub(k) / RemovePairing(k, c) / AddPairing(k, c)
      notification (Notify.tla)                                events of a write / local change
      lifecycle (Lifecycle.tla)                                Stop / Start    connections and subscriptions vanish, pairings stay
      discoverability                                          sf = 1 iff no controller is stored
@@ -74,6 +74,15 @@ RemovePairing(k, c) ==
           /\ last' = <<"Remove", k, c, "ok">>
      ELSE /\ UNCHANGED <<paired, sf, who, subs>> /\ last' = <<"Remove", k, c, "refused">>
   /\ Quiet /\ UNCHANGED <<running, val, done>>
+\* a verified controller stores another controller's key (/pairings, method add); same notification path as pair-setup
+AddPairing(k, c) ==
+  /\ running
+  /\ IF Gate(k)
+     THEN /\ paired' = paired \cup {c}
+          /\ sf' = IF Guard("sf_updated_on_pair") THEN 0 ELSE sf
+          /\ last' = <<"Add", k, c, "ok">>
+     ELSE /\ UNCHANGED <<paired, sf>> /\ last' = <<"Add", k, c, "refused">>
+  /\ Quiet /\ UNCHANGED <<running, who, subs, val, done>>
 Close(k) == /\ running /\ who' = [who EXCEPT ![k] = None] /\ subs' = subs \ {k}
             /\ done' = done \ {k}
             /\ Quiet /\ last' = <<"Close", k, None, "ok">> /\ UNCHANGED <<running, paired, val, sf>>
@@ -84,7 +93,7 @@ Start == /\ ~running /\ running' = TRUE /\ val' = 0
          /\ sf' = IF paired = {} \/ ~Guard("sf_from_pairings") THEN 1 ELSE 0
          /\ Quiet /\ last' = <<"Start", None, None, None>> /\ UNCHANGED <<paired, who, subs, done>>
 
-Next == \/ \E k \in Conn, c \in Ctrl : Pair(k, c) \/ Verify(k, c) \/ RemovePairing(k, c)
+Next == \/ \E k \in Conn, c \in Ctrl : Pair(k, c) \/ Verify(k, c) \/ RemovePairing(k, c) \/ AddPairing(k, c)
         \/ \E k \in Conn : Read(k) \/ Sub(k) \/ Unsub(k) \/ Close(k) \/ \E v \in {0, 1} : Write(k, v)
         \/ \E v \in {0, 1} : LocalSet(v)
         \/ Stop \/ Start
@@ -94,7 +103,7 @@ Spec == Init /\ [][Next]_vars
 VerifiedMeansStoredOnce ==                                                   \* C03
   [][ (last'[1] = "Verify" /\ last'[4] = "ok") => last'[3] \in paired ]_vars
 GatedOps ==                                                                   \* C01
-  [][ (last'[1] \in {"Read", "Sub", "Unsub", "Write", "Remove"} /\ last'[4] = "ok") => Verified(last'[2]) ]_vars
+  [][ (last'[1] \in {"Read", "Sub", "Unsub", "Write", "Remove", "Add"} /\ last'[4] = "ok") => Verified(last'[2]) ]_vars
 EventsToSubscribedOthers ==                                                   \* C10
   [][ got' \subseteq {k \in Conn : Verified(k) /\ k \in subs /\ k # last'[2]} ]_vars
 Discoverable == running => (sf = 1 <=> paired = {})                           \* C20
